@@ -111,6 +111,7 @@ class Thread
 #endif
 	Handle_ _thread;
 	volatile bool _threadFinished;
+	bool _deleteOnFinish;
 private:
 	template<class F>
 	struct Context {
@@ -154,6 +155,11 @@ private:
 #ifdef ASL_VERIF
 		asl_verif_sched_point("Thread::begin:after-run");
 #endif
+		if (t->_deleteOnFinish) // self-owned thread objects are deleted here, after their last use
+		{
+			delete t;
+			return 0;
+		}
 		t->_threadFinished = true;
 		return 0;
 	}
@@ -184,10 +190,12 @@ public:
 	{
 		_thread = 0;
 		_threadFinished = false;
+		_deleteOnFinish = false;
 	}
 	Thread(const Thread& t) : _thread(t._thread)
 	{
 		_threadFinished = false;
+		_deleteOnFinish = false;
 		const_cast<Thread&>(t)._thread = 0;
 	}
 	void operator=(const Thread& t)
@@ -247,6 +255,12 @@ public:
 	Returns true if this thread has finished
 	*/
 	bool finished() const { return _threadFinished; }
+protected:
+	/**
+	Makes a heap-allocated thread object delete itself when its run() function returns
+	*/
+	void deleteOnFinish() { _deleteOnFinish = true; }
+public:
 	/**
 	Returns the number of logical processors or cores
 	*/
@@ -269,6 +283,7 @@ public:
 	{
 		_thread = 0;
 		_threadFinished = false;
+		_deleteOnFinish = false;
 		Thread t(start(f, this)); // only take the handle back: the finished flag belongs to the new thread now
 		_thread = t._thread;
 		t._thread = 0;
